@@ -398,7 +398,7 @@ theorem store_loop (H) (self src : Nat) (n : Nat) : ∀ (i : Nat) (τ : State),
 /-- `Builder.store_slice(s)` = the model's `storeFrom`: references overflow (against the REMAINING references `len(refs) - ref_offset`)
 checked first, then the bits overflow; then the builder's OWN array gets the slice's remaining bits and its OWN list the remaining
 ELEMENTS `refs[ref_offset:]` one by one - neither of the slice's containers is kept.  Needs: the builder's list is not the slice's
-list (`Sep`; in `to_builder` the builder is new) and `ref_offset ≤ len(refs)` (`load_ref` never moves past the end). -/
+list (`Sep`; in `to_builder` the builder is new); `ref_offset ≤ len(refs)` is `WF.offLe` (`load_ref` never moves past the end). -/
 theorem Builder_store_slice_core (H) (σ : State) (self src : Nat) (h : σ.has self .builder = true) (hs : σ.has src .slice = true)
     (ho : (σ.obj self).off = 0) (hne : (σ.obj self).refsId ≠ (σ.obj src).refsId)
     (hoff : (σ.obj src).off ≤ (σ.refBuf (σ.obj src).refsId).length ∨ (σ.refBuf (σ.obj self).refsId).length = 0) :
@@ -430,10 +430,10 @@ theorem Builder_store_slice_core (H) (σ : State) (self src : Nat) (h : σ.has s
       · simp [hj]
 
 theorem Builder_store_slice_eq (H) (σ : State) (wf : WF σ) (self src : Nat) (h : σ.has self .builder = true) (hs : σ.has src .slice = true)
-    (hne : (σ.obj self).refsId ≠ (σ.obj src).refsId) (hoff : (σ.obj src).off ≤ (σ.refBuf (σ.obj src).refsId).length) :
+    (hne : (σ.obj self).refsId ≠ (σ.obj src).refsId) :
     Py.Heap.resultUnit σ (Builder_store_slice H σ self src) = step H σ (.storeFrom self src) := by
   obtain ⟨hi, ht⟩ := has_lt h
-  exact Builder_store_slice_core H σ self src h hs (wf.off0 self hi (by rw [ht]; decide)) hne (Or.inl hoff)
+  exact Builder_store_slice_core H σ self src h hs (wf.off0 self hi (by rw [ht]; decide)) hne (Or.inl (wf.offLe src (has_lt hs).1))
 
 /-- `store_slice` returns its receiver -/
 theorem Builder_store_slice_ret (H) (σ σ' : State) (b c r : Nat) (h : Builder_store_slice H σ b c = some (σ', r)) : r = b := by
@@ -518,5 +518,25 @@ theorem Cell_get_data_bytes_frame (H) (σ : State) (self : Nat) :
     simp [Py.Heap.copyBits, Py.Heap.appendBit, Py.Heap.fillBits, State.allocB, State.setB, hc]
   all_goals (intro j hj; have : j ≠ σ.nBit := by omega
              simp [this])
+
+/-- the scratch run of `get_data_bytes` leaves the heap exactly as it was -/
+theorem scratch_get_data_bytes (H) (σ : State) (self : Nat) : Py.Heap.scratch σ (Cell_get_data_bytes H σ self) = some σ := by
+  obtain ⟨σ', v, h0, h1, h2, h3, h4, h5, _, _⟩ := Cell_get_data_bytes_frame H σ self
+  rw [h0]
+  simp only [Py.Heap.scratch, Option.map_some, Option.some.injEq, Py.Heap.dropScratch]
+  refine state_ext ?_ rfl h2 h5 h3 h4
+  funext j
+  by_cases hj : j < σ.nBit
+  · simp [hj, h1 j hj]
+  · simp [hj]
+
+/-- `Cell(bits, refs, cell_type)` - the regenerated `__init__` - is the model's `cellCtor`: the new cell points at the caller's OWN two
+containers, its caches are fresh values, nothing that existed is changed; it raises exactly when the constructor refuses the content. -/
+theorem Cell___init___eq (H) (σ : State) (ub ur : Nat) (kind : Int) (hb : σ.has ub .ubits = true) (hr : σ.has ur .urefs = true) :
+    Py.Heap.result σ (Cell___init__ H σ (σ.obj ub).bitsId (σ.obj ur).refsId kind) = step H σ (.cellCtor ub ur kind) := by
+  simp only [step, hb, hr, Bool.and_self, if_true, Cell___init__, Py.Heap.newCell?]
+  cases hm : mkCellRec H σ (σ.obj ub).bitsId (σ.obj ur).refsId kind (σ.bitBuf (σ.obj ub).bitsId) (σ.refBuf (σ.obj ur).refsId) with
+  | none => simp [Py.Heap.result]
+  | some c => simp [Py.Heap.result, scratch_get_data_bytes]
 
 end TonVerif.Proofs.SrcHeap
